@@ -228,6 +228,26 @@ def run(ctx):
                 recs.append({"kind": "load", "file": os.path.basename(f), "index": i, "bytes": list(sn.bytes),
                              "served": served, "stack": stack, "connected": bool(connected), "lossy": rel < 1.0})
                 meta.append(f"{os.path.basename(f)}#{i}/{stack}/reliability={rel}")
+    # ... and brought up the scripted way: GeckoSimulator(["load <file>"]) (single-snapshot files)
+    for f in files:
+        try:
+            snaps = GeckoSnapshot.parse_log_file(f)
+        except Exception:  # noqa
+            continue
+        if len(snaps) != 1:
+            continue
+        served, connected = [], False
+        try:
+            with contextlib.redirect_stdout(io.StringIO()):
+                peer = SimPeer(first_commands=[f"load {f}"])
+            with ThreadedSession(peer=peer) as s:
+                connected = s.wait_connected(3000)
+                served = list(s.spa.struct.status_block)
+        except Exception:  # noqa
+            served = []
+        recs.append({"kind": "load", "file": os.path.basename(f), "index": 0, "bytes": list(snaps[0].bytes),
+                     "served": served, "stack": "sync", "connected": bool(connected), "lossy": False})
+        meta.append(f"{os.path.basename(f)}#0/sync/scripted-load")
     bad, n = tlc.judge("C19_Judge", recs, "c19", chunk=40, jobs=12, heap="2g")
     for idx, why in bad:
         r_ = recs[idx]
